@@ -127,6 +127,16 @@ def run(facts, tier):
                                         return True
             return False
         self_sw = [i for i, bb_ in enumerate(b.bbs) if bb_["t"]["k"] == "Switch" and tests_container(i)]
+        # a boolean computed from such a test (`matches!(self, ..)`, a helper-free `let is_seq = match self {..}`): the flag is assigned
+        # constants only, each in a block that one of the container tests decides
+        for i, bb_ in enumerate(b.bbs):
+            if bb_["t"]["k"] != "Switch" or i in self_sw:
+                continue
+            l_ = (bb_["t"]["o"].get("c") or bb_["t"]["o"].get("m") or {}).get("l")
+            sets = [(j, s_) for j, b2 in enumerate(b.bbs) for s_ in b2["st"] if s_.get("k") == "A" and s_["p"].get("l") == l_ and not s_["p"].get("pr")]
+            if l_ is not None and len(sets) >= 2 and all(s_["r"].get("k") == "Use" and "k" in (s_["r"].get("o") or {}) for _, s_ in sets) \
+                    and all(any(b.controlled_by(j, sw) for sw in self_sw) for j, _ in sets):
+                self_sw.append(i)
         slices = b.find_calls(r"ValT>::map_range$|ValT::map_range$|::map_range$")
         if not slices:
             p6.missing_anchor("call of map_range in map_index")
